@@ -43,6 +43,7 @@ def run_one(meta, repo, tier="quick"):
         cmd = [sys.executable, "-B", "-m", "vf.main", "check", meta["property"], "--tier", tier, "--repo", tree]
         env = dict(os.environ)
         env["VF_EVIDENCE_DIR"] = os.path.join(work, "evidence")
+        env["VF_NO_SELFTEST"] = "1"
         q = subprocess.run(cmd, cwd=VERIF, env=env, stdout=subprocess.PIPE, stderr=subprocess.STDOUT, text=True)
         out = q.stdout
         res["exit"] = q.returncode
